@@ -210,9 +210,10 @@ func runH265Parse(donl bool, payloads [][]byte) Outcome {
 		}
 		// RFC 7798 4.4.3, from the bytes: only a fragmentation unit (type 49, bits 1-6 of the first byte,
 		// whatever the F bit says) without its S bit is not the head of a partition
-		// (judged on payloads the parser accepts: what the predicate says about a string that is no RFC 7798
-		// payload at all is nobody's clause - C09 asks only that it does not panic)
-		if wantHead := len(in) >= 3 && !(in[0]>>1&0x3F == 49 && in[2]&0x80 == 0); err == nil && head != wantHead && o.Fail == "" {
+		// (judged on payloads the parser accepts and on fragmentation units, which the payloader emits with the
+		// unit's F bit and the parser refuses when it is set: what the predicate says about a string that is no
+		// RFC 7798 payload at all is nobody's clause - C09 asks only that it does not panic)
+		if wantHead := len(in) >= 3 && !(in[0]>>1&0x3F == 49 && in[2]&0x80 == 0); (err == nil || len(in) >= 3 && in[0]>>1&0x3F == 49) && head != wantHead && o.Fail == "" {
 			o.Fail = fmt.Sprintf("step %d: IsPartitionHead(%x) = %v, the payload header and FU header say %v", i, in[:minInt(len(in), 4)], head, wantHead)
 		}
 		if err != nil {
